@@ -850,6 +850,20 @@ func (dsc *dataStoreCommand) del(keyNames []string, reclaim bool) (output respVa
 	return
 }
 
+// liveKeyCount is the number of keys that exist for a client: entries whose
+// expiry has passed (including keys UNLINKed but not yet reclaimed) do not count.
+func (dsc *dataStoreCommand) liveKeyCount() (count int) {
+	dsc.lock()
+	defer dsc.unlock()
+
+	for i := dsc.ds.data.createIterator(); i.next(); {
+		if !i.value.(*storeKey).isExpiredUnlocked() {
+			count++
+		}
+	}
+	return
+}
+
 func (dsc *dataStoreCommand) exists(keyNames []string) (output respValue) {
 	dsc.lock()
 	defer dsc.unlock()
